@@ -563,7 +563,17 @@ def send_sym(sym, ad, k=0):
     elif t == "0":
         tags = [] if sym.get("id") is None else [["112", str(sym["id"])]]
     elif t == "1":
-        tags = [["112", "TRQ"]]
+        # an application-built TestRequest: TestReqID "TRQ" (never the pending probe's id), the id of the pending
+        # probe ("match": str(_test_req_id), the only one R13c lets out), a near miss of it, or none at all
+        i = sym.get("id")
+        if i == "match":
+            tags = [["112", str(ad.treq)]]
+        elif i == "near":
+            tags = [["112", str(ad.treq) + "0" if ad.treq is not None else "0"]]
+        elif i == "none":
+            tags = []
+        else:
+            tags = [["112", "TRQ"]]
     elif t == "2":
         tags = [["7", "1"], ["16", "0"]]
     elif t == "4":
@@ -589,6 +599,10 @@ def send_sym(sym, ad, k=0):
         # PossDupFlag=N: it is not a retransmission and must get a freshly allocated number
         sv = {"nout": ad.nout, "below": ad.nout - 1, "above": ad.nout + 3}.get(sym.get("seq", "below"), ad.nout - 1)
         tags = tags + ([["43", "N"]] if sym["stale"] == "N" else []) + [["34", str(sv)]]
+    if sym.get("extra"):
+        # further fields set by the application (header flags such as PossResend(97), PossDupFlag=N, a GapFillFlag
+        # on a message that is not a SequenceReset, ...): none of them makes the message a retransmission
+        tags = tags + [[str(k_), str(v_)] for k_, v_ in sym["extra"]]
     return [1, [t, tags]]
 
 
